@@ -521,8 +521,32 @@ impl BufferedFileWriter {
 	}
 }
 
+/// Verification hook (only with `--cfg surrealkv_verif`): makes the n-th call of
+/// `BufferedFileWriter::append` counted from the moment it is armed fail once with an
+/// I/O error, to demonstrate what a transient log-write failure leaves behind.
+#[cfg(surrealkv_verif)]
+pub mod verif_hooks {
+	use std::sync::atomic::{AtomicI64, Ordering};
+
+	/// < 0: disarmed; n >= 0: the append after n more successful appends fails (once).
+	pub static FAIL_WAL_APPEND_IN: AtomicI64 = AtomicI64::new(-1);
+
+	pub(crate) fn should_fail_append() -> bool {
+		let n = FAIL_WAL_APPEND_IN.load(Ordering::SeqCst);
+		if n < 0 {
+			return false;
+		}
+		FAIL_WAL_APPEND_IN.store(n - 1, Ordering::SeqCst);
+		n == 0
+	}
+}
+
 impl WritableFile for BufferedFileWriter {
 	fn append(&mut self, data: &[u8]) -> Result<()> {
+		#[cfg(surrealkv_verif)]
+		if verif_hooks::should_fail_append() {
+			return Err(Error::IO(IOError::new(io::ErrorKind::Other, "injected WAL append failure")));
+		}
 		self.writer.write_all(data)?;
 		self.pending_sync = true;
 		Ok(())
